@@ -22,14 +22,14 @@ PROPS = {
     'C01': P('C01', 48000, 4000000, modules=['D128.Props.C01'], kernel=ROUNDING_KERNELS + ['Decimal.add']),
     'C02': P('C02', 48000, 4000000, modules=['D128.Props.C02'], kernel=ROUNDING_KERNELS),
     'C03': P('C03', 32000, 2000000, modules=['D128.Props.C03'], kernel=['U128.div', 'U128.mul64', 'RoundingMode.reduce128', 'RoundingMode.round']),
-    'C04': P('C04', 16000, 1500000, modules=['D128.Props.C04'], kernel=['U128.cmp', 'U128.div1*', 'U128.div10*', 'Decimal.Cmp', 'Decimal.CmpAbs', 'Decimal.Equal']),
+    'C04': P('C04', 16000, 1500000, level='proof', modules=['D128.Props.C04'], kernel=['U128.cmp', 'U128.div1*', 'U128.div10*', 'Decimal.Cmp', 'Decimal.CmpAbs', 'Decimal.Equal']),
     'C05': P('C05', 32000, 2000000, modules=['D128.Props.C05'], kernel=['parseNumber', 'parse', 'RoundingMode.reduce128']),
     'C06': P('C06', 16000, 1500000, modules=['D128.Props.C06'], kernel=['Decimal.digits_', 'U128.div100']),
     'C07': P('C07', 16000, 1500000, modules=['D128.Props.C07'], kernel=['digits.round', 'parseFormat', 'Decimal.digits_', 'formatArgs.*']),
     'C08': P('C08', 32000, 3000000, modules=['D128.Props.C08'], kernel=['RoundingMode.round', 'composeQuantum', 'U128.div10', 'U128.add64']),
     'C10': P('C10', 32000, 3000000, modules=['D128.Props.C10'], kernel=['U128.div10', 'U128.mul64']),
     'C11': P('C11', 32000, 3000000, modules=['D128.Props.C11'], kernel=['RoundingMode.reduce64', 'RoundingMode.reduce128', 'RoundingMode.round', 'U128.log10']),
-    'C12': P('C12', 32000, 3000000, modules=['D128.Props.C12'], kernel=['compose', 'Decimal.decompose', 'Decimal.MarshalBinary', 'Decimal.UnmarshalBinary']),
+    'C12': P('C12', 32000, 3000000, level='proof', modules=['D128.Props.C12'], kernel=['compose', 'Decimal.decompose', 'Decimal.MarshalBinary', 'Decimal.UnmarshalBinary']),
     'C13': P('C13', 16000, 1500000, modules=['D128.Props.C13'], kernel=['parseNumber', 'Decimal.digits_']),
     'C19': P('C19', 8000, 600000, modules=['D128.Props.C19'], kernel=['Decimal.Canonical', 'U128.div10', 'U128.mul64']),
 }
